@@ -21,6 +21,7 @@ import (
 	"encoding/json"
 	"fmt"
 	"os"
+	"path/filepath"
 	"runtime"
 	"sort"
 	"strings"
@@ -879,6 +880,97 @@ func c07Scenarios() []c07Scenario {
 		}
 	}})
 
+	// ---- H11: two bulks written concurrently to one active fraction, then the unsealed fraction is restarted
+	// (replayed from a copy of its files = the image a kill -9 leaves at quiescence), more data is ingested and it
+	// is restarted again. The order in which the two writers reserve their docs / meta offsets is explored
+	// (vsched.ExtraPoints: FileWriter.Write's atomic offset reservation is a scheduling point here).
+	res = append(res, c07Scenario{"H11 two concurrent writers on one active fraction, then restart, ingest, restart", func() (*c07World, []func(), func()) {
+		vsched.ExtraPoints.Store(true)
+		w := newC07World()
+		ai := frac.VerifNewIndexer(16)
+		fp := newFP(ai, 64*consts.MB)
+		a := fp.NewActive(w.dir + "/seq-db-H11")
+		w.cleanup = append(w.cleanup, a.Suicide)
+		var wg vfrac.WG
+		var written atomic.Int32
+		bulks := [][]int{{0, 1, 2}, {3}}
+		var bodies []func()
+		for _, b := range bulks {
+			docs := c07Bulk(b...)
+			w.submit(docs)
+			bodies = append(bodies, func() {
+				d, m := vfrac.BuildBulk(docs, 1)
+				wg.Add(1)
+				if err := a.Append(d, m, &wg); err != nil {
+					w.fail("append error: %v", err)
+					wg.Done()
+				} else {
+					w.ack(docs)
+				}
+				written.Add(1)
+			})
+		}
+		bodies = append(bodies, indexerLoop(ai, func() bool { return int(written.Load()) == len(bulks) }))
+		restart := func(src string, n int) (*frac.Active, *frac.ActiveIndexer) {
+			dst := fmt.Sprintf("%s/restart%d", w.dir, n)
+			if err := os.MkdirAll(dst, 0o755); err != nil {
+				panic(err)
+			}
+			files, _ := filepath.Glob(src + ".*")
+			for _, f := range files {
+				data, err := os.ReadFile(f)
+				if err != nil {
+					panic(err)
+				}
+				if err := os.WriteFile(filepath.Join(dst, filepath.Base(f)), data, 0o644); err != nil {
+					panic(err)
+				}
+			}
+			ai2 := frac.VerifNewIndexer(64)
+			a2 := newFP(ai2, 64*consts.MB).NewActive(filepath.Join(dst, filepath.Base(src)))
+			w.cleanup = append(w.cleanup, a2.Suicide)
+			done := make(chan error, 1)
+			go func() { done <- a2.Replay(context.Background()) }()
+			for {
+				select {
+				case err := <-done:
+					if err != nil {
+						w.fail("restart %d: replay error: %v", n, err)
+					}
+					for ai2.VerifProcessOne() {
+					}
+					return a2, ai2
+				default:
+					if !ai2.VerifProcessOne() {
+						runtime.Gosched()
+					}
+				}
+			}
+		}
+		return w, bodies, func() {
+			wg.Wait()
+			w.finalCheck(directSearch(a), directFetch(a), true)
+			a2, ai2 := restart(a.BaseFileName, 1)
+			w.finalCheck(directSearch(a2), directFetch(a2), true)
+			more := c07Bulk(4, 5)
+			w.submit(more)
+			d, m := vfrac.BuildBulk(more, 1)
+			var wg2 vfrac.WG
+			wg2.Add(1)
+			if err := a2.Append(d, m, &wg2); err != nil {
+				w.fail("append after restart: %v", err)
+				return
+			}
+			for ai2.VerifProcessOne() {
+			}
+			wg2.Wait()
+			w.ack(more)
+			w.finalCheck(directSearch(a2), directFetch(a2), true)
+			a3, _ := restart(a2.BaseFileName, 2)
+			w.finalCheck(directSearch(a3), directFetch(a3), true)
+		}
+	}})
+
 	// ---- H4: cache eviction under readers of a sealed fraction ----
 	res = append(res, c07Scenario{"H4 two readers on a sealed fraction + cleaner passes (tiny cache)", func() (*c07World, []func(), func()) {
 		w := newC07World()
@@ -1013,6 +1105,7 @@ func c07Handle(raw json.RawMessage) any {
 		// pooled objects (sync.Pool -> vsync.Pool LIFO lists under the scheduler, incl. bytespool's size classes)
 		// must not travel from one execution to the next: a replayed schedule sees the buffers the explored one saw
 		vsync.ResetPools()
+		vsched.ExtraPoints.Store(false) // a scenario that wants the optional points switches them on in its mk
 		w, bodies, f := sc.mk()
 		world, final = w, f
 		// the final check runs as the last step of thread 0's life? No: after all threads ended, outside the scheduler.
@@ -1175,7 +1268,7 @@ func TestVerifC07(t *testing.T) {
 	}
 	ev := r.Get("evaluations")
 	r.Finish(t, "model_checking",
-		fmt.Sprintf("%d harness scenarios (H1 active index with 1-2 indexer threads, H1r concurrent re-delivery, H2 seal hand-over with and without Suicide, H3 rotation through the FracManager, H4 cache eviction under readers, H5 Searcher / Fetcher fan-out against a seal, H6 two overlapping seals, H7 a reader overlapping the retention delete of its sealed fraction - judged for panic / deadlock / error only), each explored over ALL interleavings with 0..%d preemptions (iterative bounding; the deepest bound is time-capped and then reported as not exhaustive) at lock / rwlock / waitgroup / once / spawn granularity on the real code; every execution judged: no panic / deadlock / error, every returned ID submitted + matching + fetched with its bytes, at quiescence acknowledged documents visible and answers equal the sequential reference", len(scs), bound),
+		fmt.Sprintf("%d harness scenarios (H1 active index with 1-2 indexer threads, H1r concurrent re-delivery, H2 seal hand-over with and without Suicide, H3 rotation through the FracManager, H4 cache eviction under readers, H5 Searcher / Fetcher fan-out against a seal, H6 two overlapping seals, H7 a reader overlapping the retention delete of its sealed fraction - judged for panic / deadlock / error only, H8 fetch by ID of a bulk being written, H9 cache release against cleaner passes, H10 one request over a bigger fraction and then the current one with a bulk in flight - pooled scratch state, pools are deterministic LIFO lists emptied before every execution, H11 two concurrent writers on one active fraction followed by restart / ingest / restart with the offset reservations of FileWriter as scheduling points), each explored over ALL interleavings with 0..%d preemptions (iterative bounding; the deepest bound is time-capped and then reported as not exhaustive) at lock / rwlock / waitgroup / once / spawn granularity on the real code; every execution judged: no panic / deadlock / error, every returned ID submitted + matching + fetched with its bytes, at quiescence acknowledged documents visible and answers equal the sequential reference", len(scs), bound),
 		map[string]any{
 			"states":                        len(scs),
 			"transitions":                   ev,
